@@ -41,7 +41,9 @@ def _frame(days, tz, h0, h1, ghi, seed, start_date=None):
     obs = 1.0 + 0.04 * np.abs(T - 60) + 0.5 * ((hr > 7) & (hr < 20)) + rng.normal(0, 0.05, len(idx))
     cols = {"temperature": np.round(T, 3), "observed": np.round(np.abs(obs) + 0.2, 4)}
     if ghi:
-        cols["ghi"] = np.round(np.maximum(0, np.sin(np.pi * (hr - 6) / 12.0)) * 700 + 1.0, 2)
+        # night readings carry the sensor's offset: small and positive before midnight, small and NEGATIVE after it (a supplied
+        # negative irradiance is a measured value like any other and has to come back unchanged)
+        cols["ghi"] = np.round(np.maximum(0, np.sin(np.pi * (hr - 6) / 12.0)) * 700 + np.where(hr < 4, -1.5, 1.0), 2)
     return pd.DataFrame(cols, index=idx)
 
 
